@@ -482,7 +482,29 @@ def _api_monitor2(seed, i, fam, n, out):
     Ppsd = torch.diag(torch.tensor([1.0, 0.0, 0.5], dtype=dt)); xk = g("xk", (3,)); Qk = torch.eye(3, dtype=dt) * 0.1
     def ukf_call():
         return pp.module.UKF(_Lin(), Qk, Qk)(xk, xk * 1.1, xk * 0.0, Ppsd)
+    # composite calls: tensors handed to a constructor or a setter and the calls that follow on the same object
+    Alti = g("Alti", (1, 3, 3), 0.4); Blti = g("Blti", (1, 3, 2)); Clti = torch.eye(3, dtype=dt).unsqueeze(0); Dlti = torch.zeros(1, 3, 2, dtype=dt)
+    Mq = g("Mq", (5, 5)); Qlq = (Mq @ Mq.mT + torch.eye(5, dtype=dt)).repeat(1, 4, 1, 1); plq = g("plq", (1, 4, 5))
+    x0lq = g("x0lq", (1, 3)); u0lq = g("u0lq", (1, 4, 2))
+    def lqr_nominal():
+        return pp.module.LQR(pp.module.LTI(Alti, Blti, Clti, Dlti), Qlq, plq, 4)(x0lq, u_traj=u0lq)
+    def mpc_nominal():
+        return pp.module.MPC(pp.module.LTI(Alti, Blti, Clti, Dlti), Qlq, plq, 4, stepper=pp.utils.ReduceToBason(steps=3))(1, x0lq, u_init=u0lq)
+    tgrid = torch.arange(5, dtype=torch.int64)
+    def clock_then_call():
+        sy = pp.module.LTI(Alti[0], Blti[0], Clti[0], Dlti[0])
+        sy.systime = tgrid[2]
+        sy(x0lq[0], u0lq[0, 0]); sy(x0lq[0], u0lq[0, 1]); sy.reset(); sy.reset(tgrid[3]); sy(x0lq[0], u0lq[0, 0])
+        return sy.systime
+    ip, iv = g("ip", (3,)), g("iv", (3,)); ir = pp.LieTensor(R3.tensor()[0].clone(), ltype=pp.SO3_type)
+    idt, igy, iac = torch.full((6, 1), 0.01, dtype=dt), g("igy", (6, 3)), g("iac", (6, 3))
+    def imu_from_caller_tensors():
+        im = pp.module.IMUPreintegrator(pos=ip, rot=ir, vel=iv, reset=False).double()
+        im(idt[:3], igy[:3], iac[:3]); return im(idt[3:], igy[3:], iac[3:])
     calls = [
+        ("LQR:nominal", lqr_nominal, [Alti, Blti, Qlq, plq, x0lq, u0lq]), ("MPC:nominal", mpc_nominal, [Alti, Blti, Qlq, plq, x0lq, u0lq]),
+        ("System:systime-then-calls", clock_then_call, [tgrid, x0lq, u0lq]),
+        ("IMU:constructor-tensors-then-forward", imu_from_caller_tensors, [ip, iv, ir, idt, igy, iac]),
         ("euler:gimbal-lock", lambda: gim.euler(), [gim]), ("euler:gimbal-lock:SE3", lambda: gimT.euler(), [gimT]),
         ("UKF:semidefinite-prior", ukf_call, [Ppsd, xk, Qk]),
         ("EKF:step", lambda: pp.module.EKF(_Lin(), Qk, Qk)(xk, xk * 1.1, xk * 0.0, Ppsd + Qk), [Ppsd, xk, Qk]),
